@@ -417,6 +417,7 @@ func C20(c *vlib.Ctx) {
 	c20NameSpellings(c, root, &row)
 	c20ActorShapes(c, root, &row)
 	c20WriteFailures(c, root, &row)
+	c20AuditLive(c, root)
 }
 
 // c20CrossCheckSpec compares the transcribed table with the flag headings of spec.md.
